@@ -33,6 +33,7 @@ Where the README is silent the per-kind `children` record the pinned implementat
 | `[attr OP t]` on a dict | the attribute's value when it satisfies the comparison; when `attr` is not a key: the dict itself when some node selected by the path `attr` satisfies it (no node selected: when inverted) |
 | `[attr OP t]` on a scalar | the scalar itself when it satisfies the comparison |
 | a segment applied to the virtual list of a slice | only the key pass-through into its members is modelled |
+| `[keyword(params)]` | what `kwSearch` of `Model/Keyword.lean` selects (its specification is `Spec` of C13, `Props/C13.lean`): the node itself, some of its children, or — `[parent(n)]` — its `n`-th ancestor, found at its address below the document root `rt`; `[name()]` yields the node's own key / index as a scalar with the node's coordinates |
 -/
 namespace Ypv.Spec
 open Ypv.Eval
@@ -63,7 +64,7 @@ def direct (nxt : ESeg) (n : Node) : Bool :=
   | .seq .., .search .. => false
   | _, _ => true
 
-variable (mt : Matcher) (dsc : Desc)
+variable (mt : Matcher) (dsc : Desc) (rt : Node)
 
 /-- The children a step segment selects at a node. -/
 def children (s : ESeg) (n : Node) (c : Ctx) : Gen Res :=
@@ -73,6 +74,7 @@ def children (s : ESeg) (n : Node) (c : Ctx) : Gen Res :=
   | .slice lo hi => sliceStep lo hi n c
   | .anchor a => (anchorStep a n c).map Res.real
   | .search inv m attr term => (searchStep mt dsc inv m attr term true n c).map Res.real
+  | .keyword inv k p => (kwStep rt inv k p n c).map Res.real
   | _ => Gen.fail .outOfModel
 
 def select : List ESeg → Res → Gen Res
@@ -85,7 +87,7 @@ def select : List ESeg → Res → Gen Res
       if nxt.isTraverse then Gen.fail (.ypath .recursion)
       else Gen.bindList (fun x => if direct nxt x.1 then select (nxt :: rest) (.real x) else Gen.nil)
         (preorder n c)
-  | s :: rest, .real (n, c) => Gen.bind (children mt dsc s n c) (select rest)
+  | s :: rest, .real (n, c) => Gen.bind (children mt dsc rt s n c) (select rest)
 termination_by segs => segs.length
 
 end Ypv.Spec
